@@ -262,7 +262,13 @@ def units_C02(tier, seed):
 
 
 def more_C02(tier):
-    return []
+    """fixed stacks of depth 3-5 against the composed oracle"""
+    U = []
+    U += unit('c02_stack_clamp_backup_shuffle_clamp_probe', 'c02_stacks.cpp', 'stack_a()', sites=[1, 2, 3, 4], diff=True, weight=20,
+              flavours=('rel', 'san'))
+    U += unit('c02_stack_cast_backup_shuffle_strided_array', 'c02_stacks.cpp', 'stack_b()', sites=[1], diff=True, weight=10, flavours=('rel', 'dbg'))
+    U += unit('c02_stack_nn_clamp_shuffle_probe', 'c02_stacks.cpp', 'stack_c()', sites=[1, 2], diff=True, weight=60)
+    return U
 
 
 def units_C10(tier, seed):
@@ -300,7 +306,8 @@ INFO['C03'] = {
               'a in [0,1)^N and all real lattice values (UF), N=1..4 quick / 1..5 thorough, M=1..4 independently, coordinate and '
               'stored scalar each float/double; exactly 2^N backend queries at i+bits(n); hull clause solved for N<=2; cell choice '
               'bit-precise for 0<=x<2^23 (float) / 2^52 (double), N<=3; lattice exactness at the 2^N corners of concrete cells '
-              '(5,7,2,3) with all finite stored values, N<=3 quick / 4 thorough. Rounding clause: op-count bound from the IR '
+              '(5,7,2,3) with all finite stored values, N<=3 quick / 4 thorough; the same identity over real array storage '
+              '(linear<strided<array>>, grids of 2-3 cells per axis quick / up to 5 thorough, symbolic cell incl. the last one). Rounding clause: op-count bound from the IR '
               '(fmul/fadd counts reported per unit in fp_ops), not solved.',
     'outside': 'overflow/underflow/NaN in the rounding clause; non-default rounding modes; stored values that overflow the coordinate precision; N>5',
     'cuts': 'REAL mode: fptoui/trunc of an input-shaped term i+a rewrite to i (true fact about truncation of non-negative reals); probe backend (UF)',
@@ -348,6 +355,10 @@ def units_C03(tier, seed):
     for n, m, tc, tst in lat:
         U += unit(f'c03_lattice_{n}_{m}_{tc}_{tst}', H, f'lin_lattice_h<{n},{m},{tc},{tst},5,7,2,3>()', 'BITS', sites=[1],
                   diff=(n == 2), weight=100 * n, cfg={'query_timeout_ms': 300000}, timeout=1800)
+    # the identity over real array storage (linear<strided<array>>), symbolic cell inside the grid incl. the last cell
+    for n, m, ext in ((1, 2, 3), (2, 1, 3), (2, 3, 3), (3, 1, 2), (3, 2, 2)) + (((1, 1, 5), (2, 2, 4), (3, 3, 3), (4, 1, 2)) if th else ()):
+        U += unit(f'c03_array_{n}_{m}_{ext}', H, f'lin_array_h<{n},{m},{ext}>()', 'INT', sites=[1], diff=(n == 2 and m == 1),
+                  flavours=('rel', 'dbg') if (n, m) == (2, 1) else ('rel',), weight=ext ** n * 3)
     if th:
         U += unit('c03_lattice_origin_2_2', H, 'lin_lattice_h<2,2,float,float,0,0,0,0>()', 'BITS', sites=[1], weight=100)
     return U
